@@ -220,15 +220,19 @@ def _worker(args):
     import signal
 
     def on_alarm(signum, frame):
+        core.DEADLINE["hit"] = True  # also polled by the solver wrapper: an exception raised inside __del__ is swallowed
+        signal.alarm(2)
         raise _Budget()
     try:
+        core.DEADLINE["hit"] = False
         signal.signal(signal.SIGALRM, on_alarm)
         signal.alarm(int(getattr(_OBS[i], "budget_s", 0) or BUDGET_S))
         try:
             return run_obligation(_OBS[i], seed, xb)
         finally:
             signal.alarm(0)
-    except _Budget:
+    except (_Budget, core.DeadlineHit):
+        signal.alarm(0)
         return {"name": _OBS[i].name, "paths": 0, "feasible_paths": 0, "decisions": 0, "checks": {},
                 "violations": [], "kinds": {}, "errors": [f"wall-clock budget of the obligation exhausted (inconclusive)"],
                 "validated": 0, "validation_failures": [], "unknown": [], "samples": [], "reach_witnesses": 0,
